@@ -254,6 +254,31 @@ def d13():
     return with_tree(run)
 
 
+def _tal(tpl, **kw):
+    from simpletal import simpleTAL, simpleTALES
+
+    ctx = simpleTALES.Context(allowPythonPath=0)
+    for k, v in kw.items():
+        ctx.addGlobal(k, v)
+    t = simpleTAL.compileHTMLTemplate(io.StringIO(tpl))
+    out = io.StringIO()
+    t.expand(ctx, out)
+    return out.getvalue()
+
+
+def d14():
+    try:
+        out = _tal('<ul><li tal:repeat="i items"><b tal:condition="exists:repeat/i">yes</b></li></ul>', items=[1, 2])
+    except Exception as e:
+        return True, f"exists:repeat/i raised {type(e).__name__}: {e}"
+    return out.count("yes") != 2, f"output {out!r}"
+
+
+def d14b():
+    out = _tal('<p tal:content="text v">old</p>', v="<b>hi</b>")
+    return out != "<p>&lt;b&gt;hi&lt;/b&gt;</p>", f"tal:content=\"text v\" gave {out!r}"
+
+
 def d15():
     def run(d):
         os.mkdir(os.path.join(d, "root"))
@@ -339,6 +364,7 @@ def d18():
 
 
 ALL = {k: v for k, v in list(globals().items()) if k.startswith("d") and k[1:2].isdigit() and callable(v)}
+ALL.pop("d8", None)
 
 if __name__ == "__main__":
     names = [a.lower() for a in sys.argv[1:]] or sorted(ALL, key=lambda s: (int(''.join(c for c in s[1:] if c.isdigit())), s))
